@@ -146,7 +146,7 @@ def run(ctx: Ctx) -> None:
     }
     if not quick:
         graphs["G5 2 borrowers x 2 rounds + close() + reaper, max_idle 2"] = (
-            _c(2, 2, "{2}", 0, 0, '{"clean","abandon"}', True, True, dev), 2)
+            _c(2, 2, "{2}", 0, 0, '{"clean"}', True, True, dev), 2)
         graphs["G6 2 borrowers + reaper + clock 2, max_idle 0/1, all scripts"] = (
             _c(2, 1, "{0,1}", 2, 0, ALLK, True, False, dev), 2)
 
@@ -193,8 +193,9 @@ def run(ctx: Ctx) -> None:
                     ("s_stream_close", 1, "none", 0), ("s_unary_intr", 1, "OSError", 1), ("s_close_intr", 2, "Base", 1),
                     ("s_stream_error", 1, "none", 1)}
             sub_cases = [c for c in cases if (c["script"], c["pos"], c["exc"], c["mi"]) in pick and not c["shm"]]
-        else:       # every row at max_idle 1; the other max_idle values for the rows without a raising callback
-            sub_cases = [c for c in cases if not c["shm"] and (c["mi"] == 1 or (c["exc"] == "none" and c["pos"] <= 1))]
+        else:       # max_idle 1: every script and exception class at its first positions; max_idle 0 and 2: the rows without a callback
+            sub_cases = [c for c in cases if not c["shm"] and ((c["mi"] == 1 and c["pos"] <= 1)
+                                                               or (c["exc"] == "none" and c["pos"] == 0))]
         fin, fout = ctx.wd.path / "l2_cases.json", ctx.wd.path / "l2_out.json"
         fin.write_text(json.dumps(sub_cases))
         env = dict(os.environ)
@@ -223,7 +224,7 @@ def run(ctx: Ctx) -> None:
                     ctx.drift.append({"spec": "Pool", "graph": name, **res["drift"]})
                 if res["errors"]:
                     ctx.drift.append({"spec": "Pool", "thread_errors": res["errors"]})
-        for i in range(100 if quick else 500):
+        for i in range(100 if quick else 400):
             r = ctx.rng
             res = PW.run_random(r, r.choice([2, 2, 3]), r.choice([1, 2]), r.choice([0, 1, 2]), r.random() < 0.7,
                                 r.random() < 0.5, nkeys=r.choice([1, 1, 2]))
